@@ -331,8 +331,13 @@ def run_unit(unit, st, tier):
     kind, arg = unit
     if kind == "kit":
         cls = gen.class_by_name(arg)
-        gen.prime([cls, generic_for(cls)])
         upsig, downsig = cls.signature
+        if not (set(upsig.upper()) | set(downsig.upper())) <= set(rm.IUPAC):
+            # the statement speaks of signatures "under IUPAC rules": a signature that is not a word over the IUPAC alphabet cannot be read that way
+            st.violation("typing", "signature-is-not-a-word-over-the-IUPAC-alphabet", dict(family="kit", cls=arg, signature=[upsig, downsig]), "IUPAC letters", [upsig, downsig])
+            st.scenario("reject", None)
+            return
+        gen.prime([cls, generic_for(cls)])
         W = words_for(kit_words(cls), upsig, downsig, tier)
         k = kind_of(cls)
         if k == "vector":
@@ -427,8 +432,11 @@ def harness_roots():
 
 
 def accepts_ref(cand, s):
-    """reference acceptance of a candidate class on a well-formed record"""
-    m = rm.Matcher(cand.structure()).search(s, True)
+    """reference acceptance of a candidate class on a well-formed record (a candidate without a structure accepts nothing)"""
+    try:
+        m = rm.Matcher(cand.structure()).search(s, True)
+    except (NotImplementedError, TypeError, RuntimeError, ValueError, KeyError):
+        return False        # no structure, or a structure outside the documented pattern language: nothing the reference can accept
     if m is None:
         return False
     g = gen.geometry_of(cand.cutter)
@@ -541,6 +549,8 @@ def unit_characterize(st, rootname, tier):
         roots = [(rootname, root, root.cutter.__name__)]
         words = set()
         for c in root.__subclasses__():
+            if c.signature is NotImplemented:
+                continue
             for sgn in c.signature:
                 if set(sgn) <= set("ACGT"):
                     words.add(sgn)
